@@ -8,6 +8,7 @@ import (
 	"github.com/ethereum/go-ethereum/common"
 	"github.com/ethereum/go-ethereum/core"
 	"github.com/ethereum/go-ethereum/core/vm"
+	"github.com/ethereum/go-ethereum/crypto"
 	"github.com/ethereum/go-ethereum/eth/tracers/logger"
 	"github.com/ethereum/go-ethereum/params"
 )
@@ -30,7 +31,15 @@ func NewTracer(tracer string, msg core.Message, cfg *params.ChainConfig, height 
 	switch tracer {
 	case TracerAccessList:
 		preCompiles := vm.DefaultActivePrecompiles(cfg.Rules(big.NewInt(height), cfg.MergeNetsplitBlock != nil))
-		return logger.NewAccessListTracer(msg.AccessList(), msg.From(), *msg.To(), preCompiles)
+		// contract creations have no recipient: exclude the address of the new contract instead
+		// (as go-ethereum does), do not dereference a nil pointer
+		var to common.Address
+		if msg.To() != nil {
+			to = *msg.To()
+		} else {
+			to = crypto.CreateAddress(msg.From(), msg.Nonce())
+		}
+		return logger.NewAccessListTracer(msg.AccessList(), msg.From(), to, preCompiles)
 	case TracerJSON:
 		return logger.NewJSONLogger(logCfg, os.Stderr)
 	case TracerMarkdown:
